@@ -197,7 +197,7 @@ func (sp *NSpec) seenOutMap() bool {
 	return sp.outMap()
 }
 
-func (sp *NSpec) tag() string { return fmt.Sprintf("n%d", sp.ID) }
+func (sp *NSpec) tag() string  { return fmt.Sprintf("n%d", sp.ID) }
 func (sp *NSpec) inMap() bool  { return sp.Kind == 1 || sp.Kind == 3 }
 func (sp *NSpec) outMap() bool { return sp.Kind == 2 || sp.Kind == 3 }
 func (sp *NSpec) isLive() bool { return sp.Live && (sp.Kind == 0 || sp.Kind == 2) }
@@ -478,6 +478,21 @@ func liveT[I, O any](sp *NSpec, in *schema.StreamReader[I], sw *schema.StreamWri
 
 func mkLambdaT[I, O any](sp *NSpec, rec *recorder) *compose.Lambda {
 	fi, fs, fc, ft := natives[I, O](sp, rec)
+	// a lambda with one native goes through its dedicated public constructor half of the time
+	if natCount(sp.Nat) == 1 && sp.ID%2 == 0 {
+		switch {
+		case fi != nil:
+			return compose.InvokableLambda(func(ctx context.Context, in I) (O, error) { return fi(ctx, in) })
+		case fs != nil:
+			return compose.StreamableLambda(func(ctx context.Context, in I) (*schema.StreamReader[O], error) { return fs(ctx, in) })
+		case fc != nil:
+			return compose.CollectableLambda(func(ctx context.Context, in *schema.StreamReader[I]) (O, error) { return fc(ctx, in) })
+		default:
+			return compose.TransformableLambda(func(ctx context.Context, in *schema.StreamReader[I]) (*schema.StreamReader[O], error) {
+				return ft(ctx, in)
+			})
+		}
+	}
 	l, err := compose.AnyLambda(fi, fs, fc, ft)
 	if err != nil {
 		panic(err)
